@@ -223,7 +223,7 @@ func init() {
 	}
 	// the value of a form field is a deterministic function of (request, field name): the form does
 	// not change while a handler runs
-	libModels["http.Request.FormValue"] = func(x *Exec, st *State, e *ast.CallExpr, recv *Val) []Val {
+	libModels["net/http.Request.FormValue"] = func(x *Exec, st *State, e *ast.CallExpr, recv *Val) []Val {
 		name := x.expr(st, e.Args[0])
 		x.assumed["http.Request.FormValue: a deterministic function of the request and the field name (uninterpreted)"] = true
 		return []Val{{Typ: types.Typ[types.String], T: x.uninterp("uf_http_formvalue", x.scalarSort(types.Typ[types.String]), recv.T, name.T)}}
